@@ -96,3 +96,8 @@ func VerifBufferedWriter(ops []int) (spilled bool, buffered int, contents []byte
 	contents, err = io.ReadAll(r)
 	return
 }
+
+// VerifFormat exposes format: value text, number format code, date system and cell type.
+func VerifFormat(value, numFmt string, date1904 bool, cellType CellType) string {
+	return format(value, numFmt, date1904, cellType, &Options{})
+}
